@@ -15,6 +15,7 @@
 (*   Bi        abs round divmod math.trunc/floor/ceil                      *)
 (*   Call      f.lin(cur, y=.., k=..)   (function container, kwargs)       *)
 (*   Index     s['l'][cur]              (computed key)                     *)
+(*   IndexAttr s['g'][cur].p            (attribute of a computed-key item) *)
 (*   Assign    s[t] = cur               (through the manager)              *)
 (*   InPlace   s[t] <op>= v             (old expression or old value)      *)
 (*   SetEnv    s[x] = v                 (operands change, targets follow)  *)
@@ -40,9 +41,10 @@ View == <<cur, defs, env, depth, mg>>
 Id   == <<TLCFP(cur), TLCFP(<<"s1", cur>>), TLCFP(<<cur, "s2">>), TLCFP(defs), TLCFP(<<defs, "s">>), TLCFP(env), TLCFP(<<"s", env>>)>>
        \* identity of a node in the emitted graph: TLCFP gives 32 bits, so several differently salted fingerprints per component
 
-Leaf    == {"a", "b", "i", "t1", "t2", "e.p", "l.0", "l.1"}
+Leaf    == {"a", "b", "i", "t1", "t2", "e.p", "l.0", "l.1", "g.0.p", "g.1.p"}
 Targets == {"t1", "t2"}
-Par     == [l \in Leaf \cup {"e", "l"} |-> CASE l = "e.p" -> "e" [] l \in {"l.0", "l.1"} -> "l" [] OTHER -> "/"]
+Par     == [l \in Leaf \cup {"e", "l", "g", "g.0", "g.1"} |->
+               CASE l = "e.p" -> "e" [] l \in {"l.0", "l.1"} -> "l" [] l = "g.0.p" -> "g.0" [] l = "g.1.p" -> "g.1" [] l \in {"g.0", "g.1"} -> "g" [] OTHER -> "/"]
 RECURSIVE Chain(_)
 Chain(l) == IF Par[l] = "/" THEN {l} ELSE {l} \cup Chain(Par[l])
 
@@ -50,6 +52,7 @@ NoExpr   == [k |-> "none"]
 Ref(l)   == [k |-> "ref", l |-> l]                 \* ItemRef / AttrRef, constant keys
 Cont(c)  == [k |-> "cont", c |-> c]                \* a reference whose value is a container: "s" (Ref), "l", "e" (ItemRef)
 Dyn(o, key) == [k |-> "dyn", o |-> o, key |-> key] \* ItemRef with a computed key
+DynA(key) == [k |-> "dyna", key |-> key]          \* AttrRef ON an ItemRef with a computed key: s['g'][key].p  (g: a list of two objects)
 Lit(v)   == [k |-> "lit", v |-> v]                 \* a plain Python number standing as operand
 LitE(v)  == [k |-> "lite", v |-> v]                \* LiteralExpr(v)
 Bin(o, a, b) == [k |-> "bin", op |-> o, a |-> a, b |-> b]
@@ -79,6 +82,13 @@ Eval(e, m) ==
                        ELSE IF kv.n \in {0, 1} THEN m["l." \o ToString(kv.n)]
                        ELSE IF kv.n \in {0 - 1, 0 - 2} THEN m["l." \o ToString(kv.n + 2)] \* negative indices count from the end
                        ELSE Raise("IndexError")
+    [] e.k = "dyna" -> LET kv == Eval(e.key, m) IN
+                       IF IsRaise(kv) THEN kv
+                       ELSE IF ~IsNum(kv) THEN Opaque
+                       ELSE IF ~IsInt(kv) THEN TE
+                       ELSE IF kv.n \in {0, 1} THEN m["g." \o ToString(kv.n) \o ".p"]
+                       ELSE IF kv.n \in {0 - 1, 0 - 2} THEN m["g." \o ToString(kv.n + 2) \o ".p"]
+                       ELSE Raise("IndexError")
     [] e.k = "bin"  -> DefBin(e.op, Eval(e.a, m), Eval(e.b, m))
     [] e.k = "un"   -> PyUn(e.op, Eval(e.a, m))
     [] e.k = "bi"   -> PyBuiltin(e.f, Eval(e.a, m), EvalSeq(e.p, m))
@@ -95,6 +105,7 @@ Locs(e) ==
     [] e.k = "cont" -> IF e.c = "s" THEN {} ELSE {e.c}
     [] e.k \in {"lit", "lite"} -> {}
     [] e.k = "dyn"  -> {e.o} \cup Locs(e.key) \cup {"l.[*]"}             \* the computed-key reference itself
+    [] e.k = "dyna" -> {"g", "g.[*]", "g.[*].p"} \cup Locs(e.key)       \* the list, the computed-key item, its attribute, and what the key reads
     [] e.k = "bin"  -> Locs(e.a) \cup Locs(e.b)
     [] e.k = "un"   -> Locs(e.a)
     [] e.k = "bi"   -> Locs(e.a) \cup LocsSeq(e.p)
@@ -106,6 +117,7 @@ Reads(e) ==
   CASE e.k = "ref"  -> {e.l}
     [] e.k \in {"cont", "lit", "lite"} -> {}
     [] e.k = "dyn"  -> {"l.0", "l.1"} \cup Reads(e.key)
+    [] e.k = "dyna" -> {"g.0.p", "g.1.p"} \cup Reads(e.key)
     [] e.k = "bin"  -> Reads(e.a) \cup Reads(e.b)
     [] e.k = "un"   -> Reads(e.a)
     [] e.k = "bi"   -> Reads(e.a) \cup ReadsSeq(e.p)
@@ -113,7 +125,7 @@ Reads(e) ==
 
 SizeSeq(s) == IF s = <<>> THEN 0 ELSE Size(Head(s)) + SizeSeq(Tail(s))
 Size(e) == CASE e.k \in {"ref", "cont", "lit", "lite", "none"} -> 0
-             [] e.k = "dyn" -> 1 + Size(e.key)
+             [] e.k \in {"dyn", "dyna"} -> 1 + Size(e.key)
              [] e.k = "bin" -> 1 + Size(e.a) + Size(e.b)
              [] e.k = "un"  -> 1 + Size(e.a)
              [] e.k = "bi"  -> 1 + Size(e.a) + SizeSeq(e.p)
@@ -122,10 +134,10 @@ Size(e) == CASE e.k \in {"ref", "cont", "lit", "lite", "none"} -> 0
 ---------------------------------------------------------------------------
 (* initial environments: what the containers hold *)
 EnvOf(n) ==
-  CASE n = "ints"   -> [l \in Leaf |-> CASE l = "a" -> I(3) [] l = "b" -> I(0 - 2) [] l = "i" -> I(1) [] l = "e.p" -> I(5) [] l = "l.0" -> I(7) [] l = "l.1" -> I(0) [] OTHER -> I(0)]
-    [] n = "floats" -> [l \in Leaf |-> CASE l = "a" -> F(1, 2) [] l = "b" -> F(0 - 3, 2) [] l = "i" -> I(0) [] l = "e.p" -> F(2, 1) [] l = "l.0" -> F(5, 4) [] l = "l.1" -> I(2) [] OTHER -> I(0)]
-    [] n = "bools"  -> [l \in Leaf |-> CASE l = "a" -> Bo(TRUE) [] l = "b" -> Bo(FALSE) [] l = "i" -> Bo(TRUE) [] l = "e.p" -> I(0 - 1) [] l = "l.0" -> Bo(TRUE) [] l = "l.1" -> F(0, 1) [] OTHER -> I(0)]
-    [] n = "zeros"  -> [l \in Leaf |-> CASE l = "a" -> I(0) [] l = "b" -> F(0, 1) [] l = "i" -> I(0 - 1) [] l = "e.p" -> I(0 - 3) [] l = "l.0" -> I(0) [] l = "l.1" -> I(4) [] OTHER -> I(0)]
+  CASE n = "ints"   -> [l \in Leaf |-> CASE l = "a" -> I(3) [] l = "b" -> I(0 - 2) [] l = "i" -> I(1) [] l = "e.p" -> I(5) [] l = "l.0" -> I(7) [] l = "l.1" -> I(0) [] l = "g.0.p" -> I(4) [] l = "g.1.p" -> I(9) [] OTHER -> I(0)]
+    [] n = "floats" -> [l \in Leaf |-> CASE l = "a" -> F(1, 2) [] l = "b" -> F(0 - 3, 2) [] l = "i" -> I(0) [] l = "e.p" -> F(2, 1) [] l = "l.0" -> F(5, 4) [] l = "l.1" -> I(2) [] l = "g.0.p" -> F(3, 1) [] l = "g.1.p" -> I(6) [] OTHER -> I(0)]
+    [] n = "bools"  -> [l \in Leaf |-> CASE l = "a" -> Bo(TRUE) [] l = "b" -> Bo(FALSE) [] l = "i" -> Bo(TRUE) [] l = "e.p" -> I(0 - 1) [] l = "l.0" -> Bo(TRUE) [] l = "l.1" -> F(0, 1) [] l = "g.0.p" -> Bo(FALSE) [] l = "g.1.p" -> I(2) [] OTHER -> I(0)]
+    [] n = "zeros"  -> [l \in Leaf |-> CASE l = "a" -> I(0) [] l = "b" -> F(0, 1) [] l = "i" -> I(0 - 1) [] l = "e.p" -> I(0 - 3) [] l = "l.0" -> I(0) [] l = "l.1" -> I(4) [] l = "g.0.p" -> I(0) [] l = "g.1.p" -> F(0, 1) [] OTHER -> I(0)]
 
 Init == /\ cur = NoExpr
         /\ defs = [t \in Targets |-> NoExpr]
@@ -145,7 +157,7 @@ Grow(e, a) == /\ Size(e) <= MaxSize
               /\ cur' = e /\ UNCHANGED <<defs, env>>
               /\ last' = a
 
-Atoms == {Ref(l) : l \in {"a", "b", "e.p", "l.0", "t1"}} \cup {Dyn("l", Ref("i")), LitE(I(3)), LitE(F(1, 2)), Cont("l"), Cont("s")}
+Atoms == {Ref(l) : l \in {"a", "b", "e.p", "l.0", "t1"}} \cup {Dyn("l", Ref("i")), DynA(Ref("i")), LitE(I(3)), LitE(F(1, 2)), Cont("l"), Cont("s")}
 
 Atom(x) == /\ cur = NoExpr /\ (x.k = "ref" /\ x.l \in Targets => defs[x.l] # NoExpr)
            /\ Grow(x, [a |-> "Atom", x |-> x])
@@ -179,6 +191,7 @@ CallA(form) ==
      IN Grow(c, [a |-> "Call", form |-> form[1]])
 
 IndexA == /\ cur # NoExpr /\ Numeric(cur) /\ Grow(Dyn("l", cur), [a |-> "Index"])
+IndexAttrA == /\ cur # NoExpr /\ Numeric(cur) /\ Grow(DynA(cur), [a |-> "IndexAttr"])
 
 ---------------------------------------------------------------------------
 (* the manager side: assignment, in-place operators, operand changes *)
@@ -260,10 +273,10 @@ Build == \/ \E x \in Atoms : Atom(x)
          \/ \E op \in UnOps : UnA(op)
          \/ \E fp \in BiForms : BiA(fp)
          \/ \E f \in CallForms : CallA(f)
-         \/ IndexA
+         \/ IndexA \/ IndexAttrA
          \/ \E t \in Targets : Assign(t)
 Mgr ==   \/ \E t \in IpTargets : \E op \in IpOps : \E v \in IpLits : InPlace(t, op, v)
-         \/ \E l \in {"a", "b", "i", "l.1"} : \E v \in {I(0), I(2), F(0 - 3, 2), Bo(TRUE)} : SetEnv(l, v)
+         \/ \E l \in {"a", "b", "i", "l.1", "g.1.p"} : \E v \in {I(0), I(2), F(0 - 3, 2), Bo(TRUE)} : SetEnv(l, v)
 
 Next == /\ depth < MaxDepth
         /\ depth' = depth + 1
@@ -284,7 +297,7 @@ Sensitive == cur = NoExpr \/
 (* defined targets hold the value of their definition (unless the last update was cut short by an exception) *)
 Fresh == ("exc" \in DOMAIN last /\ last.exc # "none") \/
          \A t \in Targets : defs[t] # NoExpr => LET v == Eval(defs[t], env) IN IsRaise(v) \/ env[t] = v
-ReadsInLocs == cur = NoExpr \/ (Reads(cur) \ {"l.0", "l.1"}) \subseteq Locs(cur)
+ReadsInLocs == cur = NoExpr \/ (Reads(cur) \ {"l.0", "l.1", "g.0.p", "g.1.p"}) \subseteq Locs(cur)
 
 (* constant sets the cfg files pick from *)
 OpsAll   == BinOps
